@@ -216,7 +216,7 @@ class Stream:
                         pass
 
             self.target_port = int(self.target_port)
-            if self.state == 'NEW':
+            if self.state in ('NEW', 'NEWRESOLVE'):
                 if self.circuit is not None:
                     log.err(RuntimeError("Weird: circuit valid in NEW"))
                 self._notify('stream_new', self)
